@@ -138,6 +138,21 @@ theorem stale_writer_rejected_entry_token {c : Cache K C V} (hinv : Inv c) (k : 
     unfold Cache.getVal
     rw [find?_eq_of_mem_iff hinv.nodup (hinv.nodup.front hf) (fun e => mem_front hinv.nodup hf) k']
 
+/-- **stale_writer_rejected.** `Add` with a token below the cache token, or not above the token of the
+    entry currently stored under the key, is a no-op on the content: token, index, evict queue, the set of
+    entries and every lookup result are unchanged. -/
+theorem stale_writer_rejected {c : Cache K C V} (hinv : Inv c) (k : K) (v : Option V) (tok : Nat) (deps : List C)
+    (h : tok < c.token ∨ ∃ cur, find? k c.store = some cur ∧ tok ≤ cur.token) :
+    (c.add k v (some tok) deps).token = c.token ∧
+    (c.add k v (some tok) deps).index = c.index ∧
+    (c.add k v (some tok) deps).evictQ = c.evictQ ∧
+    (∀ e, e ∈ (c.add k v (some tok) deps).store ↔ e ∈ c.store) ∧
+    (∀ k', (c.add k v (some tok) deps).getVal k' = c.getVal k') := by
+  rcases h with h | ⟨cur, hf, h⟩
+  · rw [stale_writer_rejected_cache_token c k v tok deps h]
+    exact ⟨rfl, rfl, rfl, fun _ => Iff.rfl, fun _ => rfl⟩
+  · exact stale_writer_rejected_entry_token hinv k v tok deps cur hf h
+
 /-- Non-vacuity of acceptance: a writer whose token is not below the cache token and above the
     current entry's token is stored and served. -/
 theorem fresh_writer_stored {c : Cache K C V} (hcap : 1 ≤ c.cap) (k : K) (v : Option V) (tok : Nat) (deps : List C)
